@@ -126,6 +126,17 @@ def one(M, rec, rng, g, desc, pars, st, concat=False):
             pv3[sym.param_name[(eid_, "a")]] = val_
         variants.append(("integer exponent, negative density", d3, p2, pv3))
         rec.count("cases_with_a_symbolic_exponent_at_an_integer")
+    c_keys = [k_ for k_ in keys if k_[1] == "C" and not isinstance(sym.param_name.get(k_), tuple)]
+    if c_keys:
+        # a symbolic ramp capacity evaluated at infinity ("no capacity restriction") against the number float("inf")
+        d4, pv4 = copy.deepcopy(d2), dict({k: pv2[k] for k in sym.parameters})
+        for (eid_, _c) in c_keys:
+            for o_ in d4["origins"]:
+                if o_["id"] == eid_:
+                    o_["C"] = math.inf
+            pv4[sym.param_name[(eid_, "C")]] = math.inf
+        variants.append(("infinite capacity", d4, p2, pv4))
+        rec.count("cases_with_a_symbolic_capacity_at_infinity")
     for vname, dN, pN, pvals in variants:
         try:
             num = CC.CompileCase(M, rng, dN, pN, st, (), opts, ops=ops)
